@@ -33,7 +33,44 @@ pub fn l3_cfg(t: &mut Tape) -> GenCfg {
     // rejected today, and judged like any other program should it ever be accepted
     cfg.clashes = 8;
     cfg.clash_renames = false;
+    cfg.clash_field_renames = true;
+    // two types of one short name in different modules (distinct types that only their path tells apart)
+    cfg.alias_types = 4;
     cfg
+}
+
+/// Give a member of a type that inherits its table through its first base the name pyxis uses for
+/// the pointer field it generates elsewhere (`vftable`): accepted there, and the accessor must still
+/// read the base's pointer.
+pub fn name_member_vftable(t: &mut Tape, prog: &mut crate::model::Prog) {
+    use crate::model::{Item, Ty};
+    let mut sites = vec![];
+    for (mi, m) in prog.mods.iter().enumerate() {
+        for (ii, it) in m.items.iter().enumerate() {
+            let Item::Type(td) = it else { continue };
+            if !td.fields.first().map(|f| f.base).unwrap_or(false) {
+                continue;
+            }
+            for (fi, f) in td.fields.iter().enumerate() {
+                // integer and pointer members: a wrong accessor that reads them still compiles
+                let simple = match &f.ty {
+                    Ty::CPtr(_) | Ty::MPtr(_) => true,
+                    Ty::Named(n) => matches!(n.as_str(), "u32" | "u64" | "i32" | "i64" | "u16" | "u8"),
+                    _ => false,
+                };
+                if !f.base && f.name != "_" && simple {
+                    sites.push((mi, ii, fi));
+                }
+            }
+        }
+    }
+    if sites.is_empty() {
+        return;
+    }
+    let (mi, ii, fi) = sites[t.below(sites.len() as u64) as usize];
+    if let Item::Type(td) = &mut prog.mods[mi].items[ii] {
+        td.fields[fi].name = "vftable".into();
+    }
 }
 
 pub struct L3Result {
